@@ -149,7 +149,7 @@ def gettimebnds(ifile):
     from datetime import datetime, timedelta
     if 'TFLAG' in ifile.variables.keys():
         dates = ifile.variables['TFLAG'][:][:, 0, 0]
-        times = ifile.variables['TFLAG'][:][:, 0, 0]
+        times = ifile.variables['TFLAG'][:][:, 0, 1]
         yyyys = (dates // 1000).astype('i')
         jjj = dates % 1000
         hours = times // 10000
